@@ -287,6 +287,7 @@ def ack_fields(ctx):
     q = ctx.quick
     # a datagram overtaken by exactly L others, for every L across the window boundary, then a replay of everything
     J.lateness_sweep(ctx, "C08", list(range(28, 37)) if q else list(range(1, 45)))
+    J.ack_lateness_sweep(ctx, "C08", list(range(28, 37)) if q else list(range(1, 45)))
     J.run_scenarios(ctx, "C08", [
         dict(name="ack-fields-lossy", n=3 if q else 24, nticks=700 if q else 2500, heal_after=500 if q else 2000,
              policy=dict(p_loss=0.25, p_dup=0.1, maxdelay=20, lens=[4, 20, 100, 600], retries=(0, 1, -1)), world=dict(start_seq="alt")),
